@@ -82,7 +82,8 @@ def runs(ctx: Ctx):
         if not single and k % 3 == 1:
             # an odd replier (another vendor's gadget, a half-broken unit) answers the same probe: the well-formed repliers are reported all the same
             from .c18 import bad_reply, BAD_KINDS
-            kind = [x for x in BAD_KINDS if x not in ("xml_port_open", "xml_port_refused")][(k // 3) % (len(BAD_KINDS) - 2)]
+            safe = [x for x in BAD_KINDS if x not in ("xml_port_open", "xml_port_refused", "xml_port_answer")]
+            kind = safe[(k // 3) % len(safe)]
             oip = "10.250.%d.%d" % (rng.randrange(256), rng.randrange(1, 255))
             plan.append((rng.random() * 3, oip, 6445, bad_reply(kind, rng, oip)))
         plan.sort(key=lambda x: x[0])
